@@ -249,6 +249,7 @@ func init() {
 		}
 		rv := x.newRef(st, "rv")
 		st.assume("(= " + rvKindOf(rv).S + " " + intLit(goKind(at[0])).S + ")")
+		st.assume(x.uf("rvValid", SBool, rv).S) // ValueOf of a basic value is a valid Value
 		x.rvWrite(st, h, rv, asTerm(a[0]))
 		st.names["$rvheap:"+rv.S] = h
 		return rv, true
